@@ -11,6 +11,14 @@ NOTE = ("Trusted base: the frozen effect / identity tables in kdverif (one reaso
         "the value-level behaviour of the property (see DESIGN.md section 4, 'N' lists).")
 
 CLAIMS = {
+    "C11": ("dependence sets, def-use pairing of own/partner loads and polynomial normal forms in KDMixWrapper.getitem_xclass",
+            "Decides: all draws of getitem_xclass are on one generator variable, built in the call from exactly {self.seed, "
+            "idx} when a seed is set (get_rng_from_global otherwise), no global-RNG draw; partner data and label are "
+            "loaded with one partner index drawn once over len(self), own data and label with idx; data and label are "
+            "mixed as own*L + partner*(1-L) with the same drawn lambda, own with partner of the same item, after the shape "
+            "unification on every mixing path; every return's label passed to_one_hot_vector(..., n_classes="
+            "self.getdim_class()); the fused group ['x','class'] is declared and getitem_x / getitem_class are components "
+            "0 / 1 of getitem_xclass(idx, ctx=ctx). Sum-to-one and pad/cut arithmetic as values are not decided."),
     "C10": ("def-use threading of the partner permutation, polynomial normal forms of the mixes, taint-typed per-sample indexing",
             "Decides in KDMixCollator: every shuffle passes and rebinds one permutation variable and shuffle() reuses a given "
             "permutation (same partner for image and label); every in-place mix is own*L + partner*(1-L) with L the "
